@@ -1,6 +1,7 @@
 """Native replay of counterexamples.  A finding may carry `replay`:
    {'kind': 'lay', 'source': <program text>, 'expect_stdout': ..., 'bad_stdout_re': ..., 'bad_exit': [...]} — run through the
-   real `laythe` binary built from /repo (debug profile); with 'valgrind': True under memcheck (an invalid access reproduces the finding);
+   real `laythe` binary built from /repo (debug profile); with 'valgrind': True under memcheck (an invalid access reproduces the finding); with 'gc_stress': True on the
+   repository's collect-at-every-allocation build (feature gc_stress; death by signal reproduces the finding);
    {'kind': 'none'} — kernel-level counterexample without a native route (reported with its model)."""
 import os
 import re
@@ -12,11 +13,14 @@ REPO = os.environ.get('VERIF_REPO', '/repo')
 CACHE = os.environ.get('VERIF_CACHE', '/verif/.cache')
 
 
-def build_laythe(profile='debug'):
+def build_laythe(profile='debug', stress=False):
     env = dict(os.environ)
     env['CARGO_NET_OFFLINE'] = 'true'
-    env['CARGO_TARGET_DIR'] = os.path.join(CACHE, 'target-native')
+    env['CARGO_TARGET_DIR'] = os.path.join(CACHE, 'target-stress' if stress else 'target-native')
     cmd = ['cargo', 'build', '--offline', '-p', 'laythe']
+    if stress:
+        # the repository's own collect-at-every-allocation build
+        cmd += ['--features', 'laythe_vm/gc_stress']
     if profile == 'release':
         cmd.append('--release')
     r = subprocess.run(cmd, cwd=REPO, env=env, stdout=subprocess.PIPE, stderr=subprocess.STDOUT)
@@ -25,8 +29,10 @@ def build_laythe(profile='debug'):
     return os.path.join(env['CARGO_TARGET_DIR'], profile, 'laythe')
 
 
-def run_lay(source, files=None, timeout=20, profile='debug', stdin=None, valgrind=False):
-    exe = build_laythe(profile)
+def run_lay(source, files=None, timeout=20, profile='debug', stdin=None, valgrind=False, stress=False):
+    exe = build_laythe(profile, stress)
+    if stress:
+        timeout = max(timeout, 120)
     if exe is None:
         return None
     with tempfile.TemporaryDirectory(prefix='vreplay', dir=CACHE) as d:
@@ -66,12 +72,14 @@ def try_replay(rec):
 
 def _try_one(rp):
     if rp['kind'] == 'lay':
-        out = run_lay(rp['source'], rp.get('files'), valgrind=bool(rp.get('valgrind')))
+        out = run_lay(rp['source'], rp.get('files'), valgrind=bool(rp.get('valgrind')), stress=bool(rp.get('gc_stress')))
         if out is None:
             return dict(status='build_failed')
         bad = False
         if rp.get('valgrind') and out['exit'] == 97:
             bad = True
+        if rp.get('gc_stress') and out['exit'] is not None and out['exit'] < 0:
+            bad = True          # killed by a signal (segmentation fault) under the collect-at-every-allocation build
         if 'expect_stdout' in rp and out['stdout'].strip() != rp['expect_stdout'].strip():
             bad = True
         if 'bad_re' in rp and re.search(rp['bad_re'], out['stdout'] + out['stderr']):
